@@ -13,6 +13,11 @@ Configuration hypotheses: `0 < perAcc`, `0 < lastMax` (NewMempool replaces 0 by 
 -/
 namespace C21
 
+def witCfg : Cfg := ⟨4, 4, 3, 3, true⟩
+/-- The two real transactions of corpus/C21/shash_collision.ops: hashes 5e1d34cf85 36cd… / a23b…. -/
+def witA : Tx := ⟨1, 0, 175, 100000, 0, [0], false, false, 145098, 0x5e1d34cf85⟩
+def witB : Tx := ⟨2, 1, 174, 100000, 0, [0], false, false, 523892, 0x5e1d34cf85⟩
+
 /-- All transactions a history may push (direct pushes and rolled-back block contents). -/
 def allTxs (ops : List Op) : List Tx := ops.flatMap Op.txs
 
@@ -71,12 +76,28 @@ theorem removeTxs_absent_unchanged (p : Pool) (is : List Nat) (h : ∀ id ∈ is
     simp only [hi, Bool.false_eq_true, if_false]
     exact ih (fun id hid => h id (List.mem_cons_of_mem _ hid))
 
-/-- **block_removed** — after `RemoveTxsOfBlock`, and after the whole add-block event (header
-update, removal, expiry sweep), no transaction of the block is in the pool. -/
+/-- **block_removed** — at the instant after `RemoveTxsOfBlock`, and at the end of the add-block
+event taken as one step (header update, removal, expiry sweep), no transaction of the block is in
+the pool.  This is NOT an invariant of later states: in the Go code the three parts of
+`eventAddBlock` are separate lock sections and a submission that passed `CheckDupTx` before the
+block connected may be pushed afterwards (`block_removed_not_invariant`); absence is kept exactly
+until a transaction with that hash is pushed again (`block_removed_until_pushed`). -/
 theorem block_removed (cfg : Cfg) (p : Pool) (bh bbt : Int) (blockIds : List Nat) (now : Int) :
     (∀ id ∈ blockIds, id ∉ ids (removeTxs p blockIds)) ∧
     (∀ id ∈ blockIds, id ∉ ids (addBlock cfg p bh bbt blockIds now)) :=
   ⟨removeTxs_gone blockIds p, addBlock_gone cfg p bh bbt blockIds now⟩
+
+/-- Once absent, a hash stays absent through every event that does not push a transaction with that
+hash (removals, sweeps, header updates, other pushes, other blocks). -/
+theorem block_removed_until_pushed (cfg : Cfg) (hper : 0 < cfg.perAcc) (id : Nat) (p : Pool) (ops : List Op)
+    (habs : id ∉ ids p) (hno : ∀ op ∈ ops, ∀ t ∈ op.txs, t.id ≠ id) : id ∉ ids (run cfg p ops) :=
+  (absent_closed cfg hper id).run ops p hno habs
+
+/-- The witness: block {1} is added (tx 1 leaves the pool), then a late `PushTx` of tx 1 — already
+past the duplicate check — puts it back. -/
+theorem block_removed_not_invariant :
+    1 ∈ ids (run witCfg (Pool.empty 5 100) [.push witA 100, .addBlock 6 200 [1] 150, .push witA 160]) ∧
+    1 ∉ ids (run witCfg (Pool.empty 5 100) [.push witA 100, .addBlock 6 200 [1] 150]) := by decide
 
 /-- After a successful push the new transaction is the newest entry of the pool and of the
 latest-transactions list. -/
@@ -101,10 +122,6 @@ def ShashFullStatement : Prop :=
       ∃ t', byShort (run cfg (Pool.empty h bt) ops) t.sh = some t' ∧
         t' ∈ contents (run cfg (Pool.empty h bt) ops) ∧ t'.sh = t.sh
 
-def witCfg : Cfg := ⟨4, 4, 3, 3, true⟩
-/-- The two real transactions of corpus/C21/shash_collision.ops: hashes 5e1d34cf85 36cd… / a23b…. -/
-def witA : Tx := ⟨1, 0, 175, 100000, 0, [0], false, false, 145098, 0x5e1d34cf85⟩
-def witB : Tx := ⟨2, 1, 174, 100000, 0, [0], false, false, 523892, 0x5e1d34cf85⟩
 def witOps : List Op := [.push witA 1700000100, .push witB 1700000100, .removeTxs [2]]
 
 /-- **S-C21** — the full statement is false of the model (and of the code, replayed by
